@@ -26,7 +26,7 @@ def verdicts(binary, e, outp):
     subprocess.run([binary, "-test.run", "^TestRun$", "-test.timeout", "0"], env=dict(os.environ, VERIF_OUT=outp, **e), stdout=subprocess.DEVNULL, stderr=subprocess.DEVNULL,
                    cwd=os.path.join(ROOT, "harness"))
     if not os.path.exists(outp): return []
-    p = subprocess.run([driver, pid], stdin=open(outp), stdout=subprocess.PIPE, text=True)
+    p = subprocess.run([driver, os.environ.get("VERIF_DRIVER", pid)], stdin=open(outp), stdout=subprocess.PIPE, text=True)
     os.remove(outp)
     return [json.loads(l) for l in p.stdout.splitlines() if l.strip()]
 
